@@ -51,6 +51,10 @@ import (
 //       the estimate as gas limit it does not run out of gas;
 //   (k) mechanism level: the gRPC handler, routed exactly like BaseApp does, leaves the persistent stores of the query context
 //       it was given untouched (tracing excepted: it replays predecessors into its context by design).
+//   (d) process-state pass (c08_proc.go): histories whose blocks change what EVM execution is set up from (precompile deployed,
+//       contract created / destroyed, x/evm, x/feemarket, x/cpc parameters changed by governance), one request at any point and
+//       any committed height (also heights before the change); later block results, later answers and the answer itself must
+//       equal those of a twin application that never served the request — catches influence through memory of the process.
 //
 // Known defect of the unchanged tree (c08SigPendingFlag): between FinalizeBlock and Commit a query context shares the transient
 // store with the pending block; the "sender paid the fee" flag left behind by its last Ethereum tx makes the predecessor replay
@@ -128,6 +132,7 @@ type c08Prog struct {
 	Create     bool
 	Erc20      bool // target is the ERC-20 precompile of the base denom
 	To         common.Address
+	ToFn       func(e *c08Env) common.Address // target computed from the environment (overrides To)
 	Data       func(e *c08Env) []byte
 	Value      int64
 	Gas        uint64
@@ -172,7 +177,23 @@ func c08ProgByName(n string) *c08Prog {
 			return &c08Programs[i]
 		}
 	}
+	for i := range c08ProcPrograms { // programs of the process-state pass (c08_proc.go)
+		if c08ProcPrograms[i].Name == n {
+			return &c08ProcPrograms[i]
+		}
+	}
 	return nil
+}
+
+// target is the callee of a (non-creating) program in environment e.
+func (p *c08Prog) target(e *c08Env) common.Address {
+	switch {
+	case p.ToFn != nil:
+		return p.ToFn(e)
+	case p.Erc20:
+		return e.erc20
+	}
+	return p.To
 }
 
 // ---------------------------------------------------------------------------
@@ -184,6 +205,7 @@ type c08Req struct {
 	Kind   string `json:"kind"`             // ethcall | estimate | tracetx | traceblock | grpc | checktx | recheck | simulate | appsimulate
 	Name   string `json:"name,omitempty"`   // program (ethcall, estimate), transaction kind (checktx, recheck, simulate, appsimulate), query name (grpc)
 	Price  bool   `json:"price,omitempty"`  // ethcall / estimate: gasPrice = base fee (otherwise no fee fields)
+	Gwei   int64  `json:"gwei,omitempty"`   // ethcall / estimate: gasPrice = that many gwei (state independent request bytes)
 	NoGas  bool   `json:"no_gas,omitempty"` // estimate: no gas argument (upper bound is the gas cap)
 	Block  int    `json:"block,omitempty"`  // trace: index of the history block, -1 = block h+1
 	Tx     int    `json:"tx,omitempty"`     // tracetx: position in the block
@@ -197,6 +219,9 @@ func (r c08Req) String() string {
 	}
 	if r.Price {
 		s += "+price"
+	}
+	if r.Gwei != 0 {
+		s += fmt.Sprintf("+%dgwei", r.Gwei)
 	}
 	if r.NoGas {
 		s += "+nogas"
@@ -223,11 +248,15 @@ func (r c08Req) isQuery() bool {
 }
 
 type c08Case struct {
-	History [][]string `json:"history"` // blocks of transaction kinds; the tx at position p is sent by wallet p
-	Reqs    []c08Req   `json:"reqs"`
+	History [][]string   `json:"history"` // blocks of transaction kinds; the tx at position p is sent by wallet p
+	Reqs    []c08Req     `json:"reqs"`
+	Proc    *c08ProcCase `json:"proc,omitempty"` // non-nil: a case of the process-state pass (c08_proc.go); History / Reqs unused
 }
 
 func (c c08Case) String() string {
+	if c.Proc != nil {
+		return c.Proc.String()
+	}
 	var rs []string
 	for _, r := range c.Reqs {
 		rs = append(rs, r.String())
@@ -443,11 +472,7 @@ func c08HexU(n uint64) string { return fmt.Sprintf("0x%x", n) }
 func (e *c08Env) callArgs(p *c08Prog, gas uint64, price *big.Int) []byte {
 	m := map[string]interface{}{"from": e.w.Wallets[c08WReq].Eth().Hex()}
 	if !p.Create {
-		to := p.To
-		if p.Erc20 {
-			to = e.erc20
-		}
-		m["to"] = to.Hex()
+		m["to"] = p.target(e).Hex()
 	}
 	if gas != 0 {
 		m["gas"] = c08HexU(gas)
@@ -471,10 +496,7 @@ func (e *c08Env) callTx(p *c08Prog, gas uint64) []byte {
 	a := w.Wallets[c08WReq]
 	var to *common.Address
 	if !p.Create {
-		t := p.To
-		if p.Erc20 {
-			t = e.erc20
-		}
+		t := p.target(e)
 		to = &t
 	}
 	var data []byte
@@ -666,6 +688,11 @@ func c08QueryByName(n string) *c08Query {
 			return &c08Queries[i]
 		}
 	}
+	for i := range c08ProcQueries { // queries of the process-state pass (c08_proc.go)
+		if c08ProcQueries[i].Name == n {
+			return &c08ProcQueries[i]
+		}
+	}
 	return nil
 }
 
@@ -701,6 +728,9 @@ func (e *c08Env) build(r c08Req) c08Built {
 		var price *big.Int
 		if r.Price {
 			price = e.base()
+		}
+		if r.Gwei != 0 {
+			price = new(big.Int).Mul(big.NewInt(r.Gwei), Gwei)
 		}
 		gas := p.Gas
 		if r.Kind == "estimate" && r.NoGas {
@@ -1127,6 +1157,9 @@ func c08Twin(c c08Case, next [][]byte) []string {
 }
 
 func c08Run(c c08Case, twins map[string][]string) *c08Obs {
+	if c.Proc != nil {
+		return c08ProcRun(c)
+	}
 	obs := &c08Obs{Info: map[string]int{}}
 	e := c08NewEnv(c, obs)
 	w := e.w
@@ -1637,7 +1670,10 @@ func c08Cases(thorough bool) []c08Case {
 func runC08(replay string) int {
 	run := ev.NewRun("C08", "model_checking")
 	run.Assumptions = []string{
-		"requests are issued sequentially at three points around block h+1 (before FinalizeBlock, between FinalizeBlock and Commit, after Commit); requests running concurrently with FinalizeBlock are not explored",
+		"requests are issued sequentially: main pass at three points around block h+1 (before FinalizeBlock, between FinalizeBlock and Commit, after Commit), process-state pass at one point before / inside / after one of the blocks that follow the pre block; requests running concurrently with FinalizeBlock are not explored",
+		"main pass: queries look at the last committed height h (pinned or unpinned), tracing at the height before the traced block; older heights (states that do not contain yet what a later block creates) are the process-state pass's dimension",
+		"process-state pass: one request per run, compared with a twin run on a fresh application; the harness reads the application (keeper getters for the ERC-20 precompile address and the three parameter sets) only before the history starts, block transactions are state independent (own nonce counters, flat gas price of 20 gwei, addresses computed offline), so the request is the only difference between the two runs; governance events rely on the world's genesis (voting period 30 min < block interval 1 h, every validator votes yes in the submission block)",
+		"process-state pass, oracle (d3): the reference answer for (request bytes, height) is taken from the twin after all blocks and after the whole query alphabet was served at every height; Simulate / CheckTx answers have no reference (they are a function of the check state) and are only compared between run and twin at the end",
 		"requests enter through BaseApp.Query (gRPC paths, /app/simulate), BaseApp.CheckTx (New / Recheck) and BaseApp.Simulate of the real application; the JSON-RPC layer in front of them is not part of the check",
 		"oracle (b) compares Ret, VmError, GasUsed, logs (address, topics, data), the estimate, trace data and gRPC values; the cumulative gas used inside the marshalled receipt of an eth_call response is not compared (counted as info_*)",
 		"oracle (c) applies to programs marked as reading neither block context nor the sender's balance; call and delivered tx use the same sender, to, data, value and explicit gas limit; the block proposer is the same validator in every block",
@@ -1669,16 +1705,30 @@ func runC08(replay string) int {
 		}
 		cases = sel
 	}
+	nMain := len(cases)
+	var procShard []int
+	procCases, psh := c08ProcCases(run.Thorough(), Shards())
+	for i, c := range procCases {
+		if filter == "" || strings.Contains(c.String(), filter) {
+			cases = append(cases, c)
+			procShard = append(procShard, psh[i])
+		}
+	}
 	run.Sharded(Shards(), func(shard, n int) {
 		twins := map[string][]string{}
-		checked := 0
+		checked, checkedProc := 0, 0
 		for i, c := range cases {
-			if i%n != shard {
+			// the cases of one history of the process-state pass go to the same few shards (one twin per history and process)
+			if (i < nMain && i%n != shard) || (i >= nMain && procShard[i-nMain]%n != shard) {
 				continue
 			}
 			o := c08Run(c, twins)
-			if checked < 3 { // determinism self-check on the first cases of every shard
-				checked++
+			if (i < nMain && checked < 3) || (i >= nMain && c.Proc.Req != nil && checkedProc < 2) { // determinism self-check on the first cases of every shard
+				if i < nMain {
+					checked++
+				} else {
+					checkedProc++
+				}
 				o2 := c08Run(c, map[string][]string{})
 				if o2.Sig != o.Sig {
 					fmt.Fprintf(os.Stderr, "HARNESS-NONDETERMINISM in C08 case %d: %s\n", i, c)
@@ -1721,7 +1771,7 @@ func runC08(replay string) int {
 	if filter != "" {
 		run.Note("C08_FILTER=%q: only %d cases executed", filter, len(cases))
 	}
-	run.Coverage["max_depth"] = 2
+	run.Coverage["max_depth"] = map[bool]int{false: 5, true: 6}[run.Thorough()] // blocks after genesis in the longest history (process-state pass)
 	var progs []string
 	for _, p := range c08Programs {
 		progs = append(progs, p.Name)
@@ -1731,7 +1781,7 @@ func runC08(replay string) int {
 		"{eth_call and estimateGas (with / without gas argument, with / without gasPrice) of %d programs %v; %d plain gRPC queries covering every method of x/evm, x/feemarket, x/cpc, x/vauth with in-range, out-of-range and malformed arguments; "+
 		"CheckTx New and Recheck of %d tx kinds (valid incl. state-changing and precompile calls, invalid); Simulate and /app/simulate of 9 kinds; TraceTx of every tx and TraceBlock of the last history block and of block h+1 with struct logger / callTracer%s} "+
 		"and all ordered pairs over a %d-request pair alphabet (%s); the list is issued at 3 points around block h+1 (queries pinned to height h, plus unpinned after FinalizeBlock and after Commit); block h+1 is the delivered call for predictive programs, a fixed block otherwise; "+
-		"every run is followed by a closing block and compared with its twin without requests; a state is (AppHash after the history, interleaving point)",
+		"every run is followed by a closing block and compared with its twin without requests; a state is (AppHash after the history, interleaving point). PLUS "+c08PRule(run.Thorough())+"; there a state is (history, point, query height)",
 		len(hs), map[bool]int{false: 12, true: len(c08HistoryKinds)}[run.Thorough()], map[bool]string{false: "", true: "; all one- and two-block combinations of 8 kinds"}[run.Thorough()],
 		len(c08Programs), progs, len(c08Queries), len(c08TxKinds), map[bool]string{false: "", true: " / prestateTracer / struct logger with memory and return data / struct logger limited to 2 steps / a JavaScript tracer, also of the first history block"}[run.Thorough()],
 		len(c08PairAlphabet(run.Thorough())), map[bool]string{false: "on every third history", true: "on histories with 0, 1 or >= 3 txs; the 8-request pair alphabet on histories with exactly 2 txs"}[run.Thorough()])
